@@ -33,6 +33,19 @@ for line in p.stdout.splitlines():
         res[j['Package'] + '::' + j['Test']] = j['Action']
 bad = sorted(t for t in stable if res.get(t) != 'pass')
 print('suite with change: %d results, stable-not-passing %d %s' % (len(res), len(bad), bad))
+# timing-dependent tests fail under machine load on any tree: re-run each one alone, up to 4 times
+still = []
+for t in bad:
+    name = t.split('::')[1]
+    ok = False
+    for k in range(4):
+        q = subprocess.run(['go1.26', 'test', '-vet=off', '-count=1', '-timeout', '10m', '-run', '^' + name + '$', '.'], cwd='$W', env=env, stdout=subprocess.PIPE, stderr=subprocess.STDOUT, text=True)
+        if q.returncode == 0:
+            ok = True
+            break
+    if not ok:
+        still.append(name)
+print('re-run alone: still failing %s' % still)
 PY
   mv /tmp/zz_$ID.go.bak zz_seed_demo_test.go 2>/dev/null
 fi
